@@ -318,6 +318,17 @@ pub fn handle(op: &str, a: &[&str]) -> Option<String> {
             let seq: Vec<u128> = list_of(seq)?;
             Some(show_list(&intsparse::berlekamp_massey_big::<u128, U256>(p, &seq)))
         }
+        // diagnostic for the finding keys: the row selections of the sparse lattice index with their detz values
+        ("im_sparse_lattice_trace", [dim, rows, count]) => {
+            let rows = sparse_of(rows)?;
+            let t = hs::lattice_index_selections(dim.parse().ok()?, &rows, count.parse().ok()?);
+            Some(
+                t.iter()
+                    .map(|(sel, d)| format!("{}={}", show_list(sel), d))
+                    .collect::<Vec<_>>()
+                    .join("|"),
+            )
+        }
         ("im_sparse_lattice_index", [dim, rows, hmin, hmax, threads]) => {
             let rows = sparse_of(rows)?;
             let t: usize = threads.parse().ok()?;
